@@ -138,6 +138,7 @@ def asCmd (j : Json) : R (Cmd Expr) := do
     return .measure ms (vs.map .num)
   if let .ok v := j.getObjVal? "prepare" then return .prepare (← v.getNat?)
   if let .ok v := j.getObjVal? "use" then return .use (← asExpr v)
+  if let .ok v := j.getObjVal? "useArr" then return .useArr (← (← v.getArr?).toList.mapM asExpr)
   throw "bad command"
 
 def tcmdJson (c : TCmd) : Json :=
@@ -208,6 +209,14 @@ def handler (op : String) (j : Json) : Option (R Json) :=
     match decompose cls ps (getBoolD j "dagger" false) with
     | none => pure Json.null
     | some l => pure <| jarr (l.map tcmdJson)
+  | "param.expand" => some do
+    let cs ← (← getArr j "cmds").mapM fun c => do
+      let ps ← (← getArr c "pars").mapM asExpr
+      pure ({ cls := (← getStr c "cls"), pars := ps, regs := getNatListD c "regs", dagger := getBoolD c "dagger" false } : PCmd)
+    let dec ← (← getArr j "dec").mapM (·.getStr?)
+    let out := expand templateTable (fun c => dec.contains c) (← getNat j "fuel") cs
+    pure <| jarr (out.map fun c => Json.mkObj [("cls", Json.str c.cls), ("regs", natList c.regs),
+      ("dagger", Json.bool c.dagger), ("pars", jarr (c.pars.map exprJson))])
   | "param.merge" => some do
     let a ← asExpr (← j.getObjVal? "a")
     let b ← asExpr (← j.getObjVal? "b")
